@@ -488,7 +488,13 @@ impl<T: Read + Seek> ShapeReader<T> {
             }
 
             let (_, shape) = match read_one_shape_as::<T, S>(&mut self.source) {
-                Err(e) => return Some(Err(e)),
+                Err(e) => {
+                    // The source stopped somewhere inside the record,
+                    // the next iteration has to seek and starts over.
+                    self.current_pos = usize::MAX;
+                    self.next_index = 0;
+                    return Some(Err(e));
+                }
                 Ok(hdr_and_shape) => hdr_and_shape,
             };
 
